@@ -178,6 +178,10 @@ func (fc *FnCtx) doAlloc(st *State, t types.Type) Val {
 		fc.heapSet(st, hv, Store(fc.heapGet(st, hv), r, Term{fmt.Sprintf("((as const %s) %s)", inner, fc.TE.Zero(at.Elem()).S), inner}))
 		return tv(r)
 	}
+	if isNamed(t, "bytes", "Buffer") {
+		// a new (zero) buffer is empty
+		fc.heapSet(st, bufLenVar, IntLit(0))
+	}
 	if isStruct(t) {
 		si := fc.TE.Struct(t)
 		if !si.Opaque {
@@ -186,7 +190,11 @@ func (fc *FnCtx) doAlloc(st *State, t types.Type) Val {
 					continue
 				}
 				hv := fc.TE.FieldHeap(t, i)
-				fc.heapSet(st, hv, Store(fc.heapGet(st, hv), r, fc.TE.Zero(f.Type)))
+				z := IntLit(0)
+				if !f.Opaque {
+					z = fc.TE.Zero(f.Type)
+				}
+				fc.heapSet(st, hv, Store(fc.heapGet(st, hv), r, z))
 			}
 		}
 		return tv(r)
